@@ -521,7 +521,52 @@ def r08_7(ctx):
     ctx.floor('R08.7', 'bindings of the block patterns in the generic vector cores', n, 3)
 
 
+def r08_8(ctx):
+    """One shape convention for a component block.  The kernels write a block row-major with numcomp[1] (test components) rows
+    and numcomp[0] (trial components) columns -- `row*numcomp[0] + col`, row < numcomp[1] -- and the driver declares the BSR
+    block size as num_components()[::-1] = (numcomp[1], numcomp[0]).  The array that multi_blocks() hands out must have that
+    trailing shape; (numcomp[0], numcomp[1]) is the same memory for square blocks only: for non-square component blocks the
+    blocks returned differ from the blocks of the assembled matrix and packed+bsr assembly fails."""
+    av = ctx.prog.func(A + '.assemble_entries_vec')
+    nc = [s_ for s_ in own_nodes(av.node) if isinstance(s_, ast.Assign) and src(s_.targets[0]) == 'nc']
+    driver_reversed = bool(nc) and src(nc[0].value).replace(' ', '') == 'asm.num_components()[::-1]'
+    n = 0
+    for d in (1, 2, 3):
+        k = ctx.prog.maybe_func('pyiga.assemble_tools_cy._asm_core_vec_%dd_kernel' % d)
+        stride0 = None
+        if k is not None:
+            t = src(k.node).replace(' ', '')
+            if 'row*numcomp[0]+col' in t and 'forrowinrange(numcomp[1])' in t:
+                stride0 = True          # rows = numcomp[1], columns = numcomp[0]
+        f = ctx.prog.maybe_func('pyiga.assemble_tools_cy.BaseVectorAssembler%dD.multi_blocks' % d)
+        if f is None:
+            continue
+        z = [c for c in ast.walk(f.node) if isinstance(c, ast.Call) and call_name(c) in ('np.zeros', 'np.empty') and c.args
+             and isinstance(c.args[0], ast.Tuple) and len(c.args[0].elts) == 3]
+        if not z:
+            ctx.undecided('R08.8', f.qual, 'allocation of the block array', f.node, 'not recognised')
+            continue
+        n += 1
+        tail = [src(e).replace(' ', '') for e in z[0].args[0].elts[1:]]
+        rows_cols = tail == ['self.numcomp[1]', 'self.numcomp[0]']
+        cols_rows = tail == ['self.numcomp[0]', 'self.numcomp[1]']
+        if not (driver_reversed and stride0):
+            ctx.undecided('R08.8', f.qual, src(z[0]), z[0], 'kernel write order / driver block size not recognised')
+        elif rows_cols:
+            ctx.met('R08.8', f.qual, src(z[0]), z[0], 'blocks are numcomp[1] x numcomp[0], as the kernels write them and the driver declares them')
+        elif cols_rows:
+            ctx.violated('R08.8', f.qual, src(z[0]), z[0],
+                         'the block array is declared numcomp[0] x numcomp[1], but the kernels fill each block row-major with numcomp[1] rows and '
+                         'numcomp[0] columns and the driver passes blocksize=num_components()[::-1]: for non-square component blocks '
+                         '(e.g. div(u)*p with 2 trial and 1 test component) multi_blocks() returns blocks of the wrong shape and '
+                         "layout='packed', format='bsr' raises ValueError (mismatching blocksize) while the other formats work")
+        else:
+            ctx.undecided('R08.8', f.qual, src(z[0]), z[0], 'trailing shape not recognised')
+    ctx.floor('R08.8', 'block array allocations in multi_blocks', n, 3)
+
+
 def run(ctx):
+    r08_8(ctx)
     r08_7(ctx)
     r08_1(ctx)
     r08_2(ctx)
